@@ -21,19 +21,19 @@ def run(ctx):
         return
     # 1. the design: Canonical & co. on every history, all operation kinds
     if thorough:
-        lc.exhaustive(ctx, ["Ldiff_c08_t2.cfg", "Ldiff_c08_t3.cfg", "Ldiff_c08_t4.cfg"], coverage=True)
+        lc.exhaustive(ctx, ["Ldiff_c08_t2.cfg", "Ldiff_c08_t3.cfg", "Ldiff_c08_t4.cfg", "Ldiff_c08_t4m.cfg"], coverage=True)
     else:
         lc.exhaustive(ctx, ["Ldiff_c08_q3.cfg"], coverage=True)
-        lc.exhaustive(ctx, ["Ldiff_c08_q2.cfg"])
+        lc.exhaustive(ctx, ["Ldiff_c08_q2.cfg", "Ldiff_c08_q4m.cfg"])
     # the two behaviours of the code before the repairs are still in the model and still caught
     lc.must_find(ctx, "Ldiff_c08_asis_set.cfg", "Canonical")
     lc.must_find(ctx, "Ldiff_c08_asis_merge.cfg", "Canonical")
     # 2. spec -> code
     if thorough:
         jobs = [("LdiffGen_x1t.cfg", None, None), ("LdiffGen_s1_2.cfg", 400, 13), ("LdiffGen_s1_3.cfg", 300, 13),
-                ("LdiffGen_s1_4.cfg", 300, 13), ("LdiffGen_s2_2.cfg", 100, 11)]
+                ("LdiffGen_s1_4.cfg", 300, 13), ("LdiffGen_s1_4m.cfg", 300, 13), ("LdiffGen_s2_2.cfg", 100, 11)]
     else:
-        jobs = [("LdiffGen_x1.cfg", None, None), ("LdiffGen_s1_2.cfg", 25, 13), ("LdiffGen_s1_3.cfg", 15, 13), ("LdiffGen_s1_4.cfg", 15, 13)]
+        jobs = [("LdiffGen_x1.cfg", None, None), ("LdiffGen_s1_2.cfg", 25, 13), ("LdiffGen_s1_3.cfg", 12, 13), ("LdiffGen_s1_4m.cfg", 15, 13)]
     dirs = lc.generate(ctx, jobs)
     ctx.go_test("./ldiff", run="TestReplay$", env={"VERIF_TUPLES": tuples, "VERIF_BEHAVIOURS": dirs}, timeout=2400, name="replay TLC behaviours")
     # 3. large random histories on the real index
